@@ -339,3 +339,63 @@ def run(ctx):
     if not okc:
         r3.fail('check_permission/shape', 'src/runtime.rs', 'check_permission no longer returns Ok exactly when permissions.get(its argument) is true and Err(PermissionError) otherwise')
     r3.need(10)
+
+    # ---------------- R11.6 the host's last word on a permission is what the lookup sees
+    r6 = ctx.rule('R11.6', 'allow / forbid write the entry of the permission on every path, with the value their name says')
+    for name, want in (('allow', True), ('forbid', False)):
+        bs = mir.find('permissions::PermissionSet::' + name)
+        if len(bs) != 1:
+            r6.fail('anchor/PermissionSet::%s' % name, 'src/permissions.rs', 'PermissionSet::%s not found' % name)
+            continue
+        b = bs[0]
+
+        def writes(body, depth=2):
+            """blocks of `body` that certainly overwrite the entry: HashMap::insert / remove on the set's map, or a call of a private
+            helper of PermissionSet all of whose paths do"""
+            out = {}
+            for bb, t in body.calls():
+                nm = strip_generics(t.get('callee') or t.get('decl') or '')
+                if re.search(r'HashMap::(insert|remove)$', nm):
+                    val = None
+                    if nm.endswith('insert') and len(t['args']) == 3:
+                        k, v = mirq.chase_op(body, t['args'][2])
+                        val = v.get('bool') if k == 'const' else ('arg', v) if k == 'arg' else None
+                    out[bb] = ('insert', val) if nm.endswith('insert') else ('remove', None)
+                elif depth > 0 and nm.startswith('permissions::PermissionSet::') and nm != body.nid:
+                    hs = mir.find(nm)
+                    if len(hs) == 1:
+                        hw = writes(hs[0], depth - 1)
+                        free = _reach_free(hs[0], set(hw))
+                        if hw and not any(hs[0].term(x)['k'] == 'return' for x in free):
+                            # the value the helper stores: its own parameter -> the caller's argument
+                            vals = set()
+                            for kind_, v_ in hw.values():
+                                if isinstance(v_, tuple) and v_[0] == 'arg' and v_[1] - 1 < len(t['args']):
+                                    k2, v2 = mirq.chase_op(body, t['args'][v_[1] - 1])
+                                    vals.add(v2.get('bool') if k2 == 'const' else None)
+                                elif kind_ == 'insert':
+                                    vals.add(v_)
+                            # removals fall back to the default: accepted next to an insert of the requested value
+                            out[bb] = ('insert', next(iter(vals)) if len(vals) == 1 else None) if vals else ('remove', None)
+            return out
+        w = writes(b)
+        free = _reach_free(b, set(w))
+        escapes = [x for x in free if b.term(x)['k'] == 'return']
+        vals = {v for k, v in w.values() if k == 'insert'}
+        ok = bool(w) and not escapes and vals == {want}
+        r6.inst({'fn': b.nid, 'writes': sorted(str(x) for x in w.values()), 'return_reachable_without_write': bool(escapes)}, ok=ok, kind=name)
+        if not ok:
+            r6.fail('PermissionSet::%s/conditional-write' % name, mirq.site(b, 0), '%s can return without overwriting the entry of the permission (or stores another value than %s): an earlier, opposite setting survives and the lookup answers with it' % (name, str(want).lower()))
+    r6.need(2)
+
+
+def _reach_free(b, avoid):
+    seen = set()
+    todo = [0]
+    while todo:
+        x = todo.pop()
+        if x in seen or x in avoid or b.is_cleanup(x):
+            continue
+        seen.add(x)
+        todo.extend(b.succ(x))
+    return seen
